@@ -98,3 +98,6 @@ func zzH_C12_quote() {
 	zzv.Assert("one-word-equal-to-entry", len(words) == 1 && words[0] == entry)
 	zzv.Assert("no-active-metacharacter", !active && !open)
 }
+
+// ZZShWords exports the shell word-lexing reference for the harnesses of package fzf.
+func ZZShWords(s string, fish bool) ([]string, bool, bool) { return zzShWords(s, fish) }
